@@ -126,7 +126,8 @@ def explore(tier, seed):
                     for o, v in vals.items():
                         fh.write(f"{o} = {toml_value(v)}\n")
             if cfgfile is not None:
-                p = os.path.join(base, "explicit.toml")
+                # (the name of an explicit configuration file is free: it need not end in .toml)
+                p = os.path.join(base, ["explicit.toml", "settings.conf", "pasfmtrc", ".pasfmt", "pasfmt.toml.bak"][k % 5])
                 with open(p, "w") as fh:
                     for o, v in cfgfile.items():
                         fh.write(f"{o} = {toml_value(v)}\n")
@@ -144,7 +145,7 @@ def explore(tier, seed):
                 rel = os.path.relpath(os.path.join(level_dir(lvl), "pasfmt.toml"), base)
                 files[rel] = "".join(f"{o} = {toml_value(v)}\n" for o, v in vals.items())
             if cfgfile is not None:
-                files["explicit.toml"] = "".join(f"{o} = {toml_value(v)}\n" for o, v in cfgfile.items())
+                files[os.path.basename(p)] = "".join(f"{o} = {toml_value(v)}\n" for o, v in cfgfile.items())
             case = {"oracle": "c19", "depth": depth, "options": oset, "sources": [list(map(str, s[:2])) for s in present], "effective": eff,
                     "args": [a.replace(base, "{BASE}") for a in args], "files": files, "cwd": os.path.relpath(cwd, base)}
             res = []
